@@ -18,7 +18,33 @@ use std::sync::atomic::{AtomicUsize, Ordering};
 use std::sync::{Arc, Mutex};
 use vharness::{driver, Args, Known, Report, Rng};
 
-const TENANT: &str = "t1";
+/// The probed tenant: `t1` (registered by the harness), or the pre-registered `default` tenant
+/// when the case's registration is the default one (quotas 1M nodes / 10M edges).
+const DEFAULT_CFG: &str = "1.1.1000000.10000000";
+fn tenant_of(cfg: &Cfg) -> &'static str {
+    if cfg.render() == DEFAULT_CFG { "default" } else { "t1" }
+}
+/// Two other tenants hold data in the same store (ids overlapping the probed tenant's, key
+/// ranges before and after it).  They are written before the hook is armed and must come
+/// back unchanged whatever happens to the probed tenant.
+const NOISE: [&str; 2] = ["a0", "z9"];
+fn noise_ops() -> Vec<Op> {
+    vec![
+        Op::CreateNode { id: 1, labels: vec![1], props: vec![(0, 1)] },
+        Op::CreateNode { id: 2, labels: vec![], props: vec![] },
+        Op::CreateEdge { id: 1, src: 1, tgt: 2, ty: 1, props: vec![(1, 3)] },
+    ]
+}
+const NOISE_DUMP: &str = "1:1:0=1,2:-:-/1:1:2:1:1=3";
+/// `<i>f` = `flush()` after op i, `<i>c` = `checkpoint()` after op i (no effect on what `recover`
+/// returns, no hook points; they move data from the memtable/WAL to SST files)
+fn parse_admin(s: &str) -> Option<Vec<(usize, char)>> {
+    if s == "-" { return Some(vec![]); }
+    s.split('+').map(|x| { let (i, c) = x.split_at(x.len().checked_sub(1)?); let c = c.chars().next()?; if c != 'f' && c != 'c' { return None; } Some((i.parse().ok()?, c)) }).collect()
+}
+fn render_admin(a: &[(usize, char)]) -> String {
+    if a.is_empty() { "-".into() } else { a.iter().map(|(i, c)| format!("{}{}", i, c)).collect::<Vec<_>>().join("+") }
+}
 
 // ---------------------------------------------------------------------------------------------
 // child
@@ -36,12 +62,20 @@ fn child(argv: &[String]) -> ! {
     let cfg = Cfg::parse(&argv[1]).expect("cfg");
     let ops = parse_ops(&argv[2]).expect("ops");
     let k: usize = argv[3].parse().expect("k");
-    let repeat: usize = argv.get(4).map(|x| x.parse().expect("repeat")).unwrap_or(1);
+    let admin = parse_admin(&argv[4]).expect("admin");
+    let repeat: usize = argv.get(5).map(|x| x.parse().expect("repeat")).unwrap_or(1);
+    let tenant = tenant_of(&cfg);
     let log = Arc::new(Mutex::new(
         std::fs::OpenOptions::new().create(true).append(true).open(dir.join("child.log")).expect("log"),
     ));
     let pm = samyama::persistence::PersistenceManager::new(dir.join("db")).expect("open");
-    cfg.setup(&pm, TENANT);
+    cfg.setup(&pm, tenant);
+    for t in NOISE {
+        Cfg::open().setup(&pm, t);
+        for op in noise_ops() {
+            assert_eq!(apply(&pm, t, &op), "ok");
+        }
+    }
     let hits = Arc::new(AtomicUsize::new(0));
     {
         let (log, hits) = (log.clone(), hits.clone());
@@ -54,10 +88,14 @@ fn child(argv: &[String]) -> ! {
         }));
     }
     for _ in 0..repeat {
-        for op in &ops {
+        for (i, op) in ops.iter().enumerate() {
             log_line(&log, "s\n");
-            let r = apply(&pm, TENANT, op);
+            let r = apply(&pm, tenant, op);
             log_line(&log, &format!("r {}\n", r));
+            for (_, c) in admin.iter().filter(|(j, _)| *j == i) {
+                let r = if *c == 'f' { pm.flush() } else { pm.checkpoint() };
+                if let Err(e) = r { log_line(&log, &format!("admin-error {}\n", e)); }
+            }
         }
     }
     samyama::verif_hook::clear();
@@ -75,6 +113,7 @@ struct Case {
     cfg: Cfg,
     ops: Vec<Op>,
     k: usize,
+    admin: Vec<(usize, char)>,
 }
 
 #[derive(Clone, Debug)]
@@ -85,6 +124,7 @@ struct Obs {
     ended: bool,
     crashed: bool,
     dump: Result<String, String>,
+    noise: Vec<Result<String, String>>,
 }
 
 fn j(v: &[String]) -> String {
@@ -93,7 +133,7 @@ fn j(v: &[String]) -> String {
 
 fn read_log(dir: &Path) -> Obs {
     let txt = std::fs::read_to_string(dir.join("child.log")).unwrap_or_default();
-    let mut o = Obs { results: vec![], inflight: false, points: vec![], ended: false, crashed: false, dump: Err("unset".into()) };
+    let mut o = Obs { results: vec![], inflight: false, points: vec![], ended: false, crashed: false, dump: Err("unset".into()), noise: vec![] };
     let mut started = 0usize;
     let complete = txt.ends_with('\n');
     let lines: Vec<&str> = txt.lines().collect();
@@ -114,10 +154,16 @@ fn read_log(dir: &Path) -> Obs {
 }
 
 /// open a fresh manager over the directory the child left behind, register the tenant, recover
-fn recover_dir(dir: &Path, cfg: &Cfg) -> Result<String, String> {
-    let pm = samyama::persistence::PersistenceManager::new(dir.join("db")).map_err(|e| format!("reopen[{}]", e))?;
-    cfg.setup(&pm, TENANT);
-    dump(&pm, TENANT)
+fn recover_dir(dir: &Path, cfg: &Cfg) -> (Result<String, String>, Vec<Result<String, String>>) {
+    let pm = match samyama::persistence::PersistenceManager::new(dir.join("db")) {
+        Ok(pm) => pm,
+        Err(e) => return (Err(format!("reopen[{}]", e)), vec![]),
+    };
+    let tenant = tenant_of(cfg);
+    cfg.setup(&pm, tenant);
+    let d = dump(&pm, tenant);
+    let noise = NOISE.iter().map(|t| { Cfg::open().setup(&pm, t); dump(&pm, t) }).collect();
+    (d, noise)
 }
 
 fn run_case(work: &Path, tag: &str, c: &Case) -> Obs {
@@ -125,7 +171,7 @@ fn run_case(work: &Path, tag: &str, c: &Case) -> Obs {
     let _ = std::fs::remove_dir_all(&dir);
     std::fs::create_dir_all(&dir).expect("case dir");
     let st = Command::new(std::env::current_exe().expect("exe"))
-        .args(["child", dir.to_str().unwrap(), &c.cfg.render(), &render_ops(&c.ops), &c.k.to_string()])
+        .args(["child", dir.to_str().unwrap(), &c.cfg.render(), &render_ops(&c.ops), &c.k.to_string(), &render_admin(&c.admin)])
         .stdin(Stdio::null())
         .stdout(Stdio::null())
         .stderr(Stdio::null())
@@ -133,7 +179,9 @@ fn run_case(work: &Path, tag: &str, c: &Case) -> Obs {
         .expect("spawn child");
     let mut o = read_log(&dir);
     o.crashed = !st.success();
-    o.dump = recover_dir(&dir, &c.cfg);
+    let (d, noise) = recover_dir(&dir, &c.cfg);
+    o.dump = d;
+    o.noise = noise;
     let _ = std::fs::remove_dir_all(&dir);
     o
 }
@@ -144,7 +192,7 @@ fn run_kill_case(work: &Path, tag: &str, c: &Case, repeat: usize, delay_us: u64)
     let _ = std::fs::remove_dir_all(&dir);
     std::fs::create_dir_all(&dir).expect("case dir");
     let mut ch = Command::new(std::env::current_exe().expect("exe"))
-        .args(["child", dir.to_str().unwrap(), &c.cfg.render(), &render_ops(&c.ops), &usize::MAX.to_string(), &repeat.to_string()])
+        .args(["child", dir.to_str().unwrap(), &c.cfg.render(), &render_ops(&c.ops), &usize::MAX.to_string(), &render_admin(&c.admin), &repeat.to_string()])
         .stdin(Stdio::null())
         .stdout(Stdio::null())
         .stderr(Stdio::null())
@@ -161,7 +209,9 @@ fn run_kill_case(work: &Path, tag: &str, c: &Case, repeat: usize, delay_us: u64)
     let st = ch.wait().expect("wait");
     let mut o = read_log(&dir);
     o.crashed = !st.success();
-    o.dump = recover_dir(&dir, &c.cfg);
+    let (d, noise) = recover_dir(&dir, &c.cfg);
+    o.dump = d;
+    o.noise = noise;
     let _ = std::fs::remove_dir_all(&dir);
     let n = o.results.len();
     (o, n)
@@ -186,7 +236,7 @@ fn main() {
     let known = Known::load(&args.known, "C16");
     let mut rep = Report::new(
         "C16",
-        "case = (tenant registration, op sequence over create/delete/update of nodes and edges with ids 1-4, crash point k); \
+        "case = (tenant registration incl. the pre-registered `default` tenant, op sequence over create/delete/update of nodes and edges with ids 1-4 and 0 / 2^32 / 2^64-1, optional flush()/checkpoint() between ops, crash point k; two other tenants hold data in the same store); \
          the child process aborts at its k-th hook point, the parent recovers; non-trivial = the process died strictly inside \
          a call (after its first effect-free point, before its last: at persist.checked/logged/stored) and the sequence has an \
          acknowledged or in-flight write; distinct = distinct (cfg, ops, k)",
@@ -197,7 +247,7 @@ fn main() {
     let work = tempfile::Builder::new().prefix("c16").tempdir_in(&args.work).expect("work dir");
 
     // ---- sequences: corpus / replay, then generated ----
-    let mut seqs: Vec<(Cfg, Vec<Op>, Option<usize>)> = vec![];
+    let mut seqs: Vec<(Cfg, Vec<Op>, Option<usize>, Vec<(usize, char)>)> = vec![];
     let mut files: Vec<PathBuf> = vec![];
     if let Some(r) = &args.replay {
         files.push(r.clone());
@@ -208,11 +258,12 @@ fn main() {
     let mut n_corpus = 0;
     for f in &files {
         for line in std::fs::read_to_string(f).unwrap_or_default().lines() {
-            // `case <cfg> <ops> <k|all>`
+            // `case <cfg> <ops> <k|all> [<admin>]`
             let t: Vec<&str> = line.split_whitespace().collect();
-            if t.len() == 4 && t[0] == "case" {
-                if let (Some(cfg), Some(ops)) = (Cfg::parse(t[1]), parse_ops(t[2])) {
-                    seqs.push((cfg, ops, t[3].parse().ok()));
+            if (t.len() == 4 || t.len() == 5) && t[0] == "case" {
+                let admin = if t.len() == 5 { parse_admin(t[4]) } else { Some(vec![]) };
+                if let (Some(cfg), Some(ops), Some(admin)) = (Cfg::parse(t[1]), parse_ops(t[2]), admin) {
+                    seqs.push((cfg, ops, t[3].parse().ok(), admin));
                     n_corpus += 1;
                 }
             }
@@ -221,7 +272,7 @@ fn main() {
     rep.count_n("corpus_sequences", n_corpus);
     let mut rng = Rng::new(args.seed);
     if args.replay.is_none() {
-        let n_seq = if args.thorough() { 90 } else { 14 };
+        let n_seq = if args.thorough() { 90 } else { 10 };
         for i in 0..n_seq {
             let len = if i % 8 == 0 { 12 } else { 2 + rng.usize(7) };
             let max_id = 2 + rng.below(3);
@@ -229,12 +280,17 @@ fn main() {
             let cfg = match i % 8 {
                 3 => Cfg { registered: true, enabled: true, max_nodes: Some(1 + rng.usize(2)), max_edges: Some(1 + rng.usize(2)) },
                 6 => Cfg { registered: true, enabled: false, max_nodes: None, max_edges: None },
+                1 | 5 => Cfg::parse(DEFAULT_CFG).unwrap(), // the pre-registered `default` tenant
                 _ => Cfg::open(),
             };
-            seqs.push((cfg, ops, None));
+            // every other sequence moves data to SST files in the middle (flush / checkpoint)
+            let admin: Vec<(usize, char)> = if i % 2 == 1 {
+                (0..1 + rng.usize(2)).map(|_| (rng.usize(len), if rng.chance(1, 2) { 'f' } else { 'c' })).collect()
+            } else { vec![] };
+            seqs.push((cfg, ops, None, admin));
         }
         // one unregistered tenant: `recover` itself must fail, on both sides
-        seqs.push((Cfg { registered: false, enabled: true, max_nodes: None, max_edges: None }, vec![Op::DeleteNode(1), Op::UpdateNode(1, vec![])], Some(usize::MAX)));
+        seqs.push((Cfg { registered: false, enabled: true, max_nodes: None, max_edges: None }, vec![Op::DeleteNode(1), Op::UpdateNode(1, vec![])], Some(usize::MAX), vec![]));
     }
 
     // ---- run: one worker per sequence, every crash point k = 0,1,… until the child survives ----
@@ -247,13 +303,13 @@ fn main() {
             sc.spawn(move || loop {
                 let i = next.fetch_add(1, Ordering::SeqCst);
                 if i >= seqs.len() { break; }
-                let (cfg, ops, k) = &seqs[i];
+                let (cfg, ops, k, admin) = &seqs[i];
                 let ks: Box<dyn Iterator<Item = usize>> = match k {
                     Some(k) => Box::new(std::iter::once(*k)),
                     None => Box::new(0..),
                 };
                 for k in ks {
-                    let c = Case { cfg: cfg.clone(), ops: ops.clone(), k };
+                    let c = Case { cfg: cfg.clone(), ops: ops.clone(), k, admin: admin.clone() };
                     let o = run_case(work, &format!("w{}", w), &c);
                     let survived = !o.crashed;
                     out.lock().unwrap().push((c, o));
@@ -284,7 +340,7 @@ fn main() {
             Err(e) if e == "notfound" => "err recover".to_string(),
             Err(e) => format!("err {}", e),
         };
-        let canon = format!("{} {} {}", c.cfg.render(), render_ops(&c.ops), c.k);
+        let canon = format!("{} {} {} {}", c.cfg.render(), render_ops(&c.ops), c.k, render_admin(&c.admin));
         let inside = o.inflight && matches!(o.points.last().map(|s| s.as_str()), Some("checked") | Some("logged") | Some("stored"));
         let has_write = o.results.iter().any(|x| x == "ok") || o.inflight;
         rep.case(&canon, inside && has_write);
@@ -299,7 +355,14 @@ fn main() {
         if inside && rep.samples.len() < 3 {
             rep.sample(json!({"cfg": c.cfg.render(), "ops": render_ops(&c.ops), "k": c.k, "impl": r}));
         }
-        let body = format!("case {} {} {}\nimpl  {}\nmodel {}\nspec  {}", c.cfg.render(), render_ops(&c.ops), c.k, r, m, s);
+        let body = format!("case {} {} {} {}\nimpl  {}\nmodel {}\nspec  {}\nother-tenants {:?}", c.cfg.render(), render_ops(&c.ops), c.k, render_admin(&c.admin), r, m, s, o.noise);
+        rep.count(&format!("tenant:{}", tenant_of(&c.cfg)));
+        if !c.admin.is_empty() { rep.count("with_flush_or_checkpoint"); }
+        // the other tenants of the store come back exactly as they were written
+        if c.cfg.registered && o.noise.iter().any(|d| d.as_deref() != Ok(NOISE_DUMP)) {
+            rep.count("spec_violation:other-tenant-changed");
+            rep.spec_violation(&known, "other-tenant-changed", &format!("tenants {:?} of the same store were written once before the sequence and recovered as {:?} (expected {})", NOISE, o.noise, NOISE_DUMP), &body);
+        }
         if o.dump.is_ok() && s != "ok" {
             let sig = if s == "viol" { classify(c, o) } else { "driver-rejected" };
             rep.count(&format!("spec_violation:{}", sig));
@@ -317,7 +380,7 @@ fn main() {
         for i in 0..60 {
             let len = 6 + rng.usize(7);
             let ops: Vec<Op> = (0..len).map(|_| gen_op(&mut rng, 4)).collect();
-            let c = Case { cfg: Cfg::open(), ops, k: usize::MAX };
+            let c = Case { cfg: Cfg::open(), ops, k: usize::MAX, admin: if i % 3 == 0 { vec![(0, 'f')] } else { vec![] } };
             let repeat = 400;
             let delay = rng.below(30_000);
             let (o, _) = run_kill_case(work.path(), &format!("kill{}", i % 4), &c, repeat, delay);
@@ -333,7 +396,7 @@ fn main() {
             rep.case(&format!("kill {} {}", render_ops(&c.ops), o.results.len()), o.inflight);
             rep.count(if o.crashed { "kill_timer:killed" } else { "kill_timer:finished" });
             if kr[i] != "ok" {
-                let cc = Case { cfg: c.cfg.clone(), ops: full.clone(), k: usize::MAX };
+                let cc = Case { cfg: c.cfg.clone(), ops: full.clone(), k: usize::MAX, admin: vec![] };
                 let sig = if kr[i] == "viol" { classify(&cc, o) } else { "driver-rejected" };
                 rep.spec_violation(&known, sig, "recovered graph after SIGKILL is neither the acknowledged state nor that plus the in-flight call",
                     &format!("kill-case {} acked={} inflight={}\nimpl-dump {:?}\nspec {}", render_ops(full), o.results.len(), o.inflight, o.dump, kr[i]));
@@ -345,7 +408,7 @@ fn main() {
     // from the model of the repaired code by the same comparison
     {
         let mut l = vec![];
-        for (cfg, ops, _) in seqs.iter().take(n_corpus as usize) {
+        for (cfg, ops, _, _) in seqs.iter().take(n_corpus as usize) {
             l.push(format!("crash {} {} 1000000", cfg.render(), render_ops(ops)));
             l.push(format!("crashlegacy {} {} 1000000", cfg.render(), render_ops(ops)));
         }
